@@ -3,9 +3,10 @@
   (DESIGN.md §1 decision (b), §7 C04, §11).
 
   WHAT IS PROVED HERE, AND WHAT IS NOT.  `Automaton::minimize` runs Hopcroft's algorithm
-  (`minimizer.rs`: splitter lists, pred-class partitions, ~550 lines of index bookkeeping).  That
-  bookkeeping is NOT modelled and NOT proved.  Instead (design decision (b)):
+  (`minimizer.rs`: splitter lists, pred-class partitions, ~550 lines of index bookkeeping).  Two
+  layers:
 
+  (1) Specification + verified checker (design decision (b)):
   * the specification is the Moore / Myhill–Nerode quotient (`Model/Minimize.lean`: `moore`,
     `quotient`), proved correct here (`moore_sound`, `moore_complete`, `moore_numBlocks`);
   * `checkMinimized A A'` is an executable certificate checker, and `check_minimized_sound` proves
@@ -16,10 +17,19 @@
   * on every run of the check the real `minimize()` is executed on generated automata and every
     single output is fed to the verified checker (family `min`, op `minimize`), the number of states
     is compared with the number of Moore blocks (op `minimize_num_states`), and `Minimizer::refine`
-    is compared with the Moore partition on abstract DFAs (op `hopcroft`).  So Hopcroft's internals
-    are validated per run through a verified checker, not proved for all inputs.
-  * `BasePartition/Partition::refine_block(_with_fun)` (`partitions.rs`) IS modelled line by line
+    is compared with the Moore partition on abstract DFAs (op `hopcroft`).
+  * `BasePartition/Partition::refine_block(_with_fun)` (`partitions.rs`) is modelled line by line
     (`Model/Partition.lean`) and proved (`refine_block_spec`, …, from `Proofs/Partition.lean`).
+
+  (2) Hopcroft's algorithm as written (second half of this file): `minimizer.rs`, `fast_sets.rs`,
+  `StateMapping::from_partition` and the call sequence of `Automaton::minimize` are modelled line
+  by line (`Model/Hopcroft.lean`, `Model/FastSet.lean`), compared LITERALLY with the real code on
+  every run (ops `hopcroft_blocks`, `hopcroft_state`, `hopcroft_trace`, `minimize_literal`,
+  `fastset`), and proved: `fastset_spec`, `hopcroft_invariants`, `hopcroft_stable_on_exit`,
+  `hopcroft_correct` (the result of `refine` IS the Moore/Nerode partition up to block numbering)
+  and `minimize_model_passes_check` (the model's `minimize` output always passes the checker of
+  layer (1)).  These are conditional on the model run returning (`= some _`): absence of panics
+  and termination within the fuel are NOT proved (see the section comment below).
 
   Hypotheses.  `wfAut A = true` is the decidable "complete DFA as the crate hands them out"
   predicate (ids = indices, per-state partitions well formed, successors in range, a default
@@ -46,10 +56,17 @@
                              `checkMinimized A (quotient A (moore A)) = true` (the checker is not
                              vacuous for any `A`; also tested per run by op `quotient_check`);
                              `minimization_exists` combines it with `check_minimized_sound`
+  * `fastset_spec`, `hopcroft_invariants`, `hopcroft_never_separates_equivalent`,
+    `hopcroft_stable_on_exit`, `hopcroft_stable_blocks`, `hopcroft_correct`,
+    `hopcroft_block_iff_indistinguishable`, `minimize_model_passes_check`,
+    `minimize_model_correct`   Hopcroft as written, see the second half of the file
 -/
 import SmtModel.Proofs.Minimize
 import SmtModel.Proofs.Partition
 import SmtModel.Proofs.Quotient
+import SmtModel.Proofs.FastSet
+import SmtModel.Proofs.Hopcroft
+import SmtModel.Proofs.HopcroftMinimize
 
 namespace Smt.C04
 open Smt Smt.Minimize
@@ -455,5 +472,227 @@ def exQ : Automaton :=
 example : quotient exA (moore exA) = some exQ ∧ checkMinimized exA exQ = true ∧
     exQ.numStates = numBlocks (moore exA) := by
   refine ⟨by decide +kernel, by decide +kernel, by decide +kernel⟩
+
+/-! ### Hopcroft's algorithm as written: `minimizer.rs`, `fast_sets.rs`
+  (faithful models `Model/Hopcroft.lean`, `Model/FastSet.lean`; proofs in `Proofs/FastSet.lean`,
+  `Proofs/HopcroftPart.lean`, `Proofs/HopcroftLists.lean`, `Proofs/HopcroftUpdate.lean`,
+  `Proofs/Hopcroft.lean`)
+
+  The model follows the Rust line by line (splitter lists with the active prefix, `active_block`
+  cursor, one `BasePartition` of pred classes per letter, `take_list` with the current fix, the
+  candidate `FastSet`, "the splitter's own block last") and is compared LITERALLY with the real
+  code on every run (ops `hopcroft_blocks`, `hopcroft_state`, `hopcroft_trace`, `minimize_literal`,
+  `fastset` of family `min`).  What is proved about it, for every `n`, `k`, every closed transition
+  function and every finality predicate (hypothesis `Closed δ n k`: `delta(x, c)` is defined and
+  `< n` for `x < n`, `c < k` — what `compile_successors` guarantees, C14):
+
+  whenever `Minimizer::new(n, k, delta, is_final).refine()` returns a partition `P`
+  (`Hopcroft.run … = some P`, i.e. no panic site was hit and the loop ended within its fuel),
+  * `hopcroft_invariants`       `P` is a partition of the states into the non-empty blocks
+                                `1 … num_blocks-1` with `block_id` consistent, and every block is
+                                uniform in finality;
+  * `hopcroft_never_separates_equivalent`   states that no word distinguishes are in one block
+                                (every refinement step only splits a block along a difference that
+                                some word witnesses);
+  * `hopcroft_stable_on_exit`   `P` is stable: for every block and letter all successors lie in one
+                                block.  This is Hopcroft's invariant: for `x, y` in one block and a
+                                letter `c` with successors in different blocks `B ≠ B'`, `(B, c)` or
+                                `(B', c)` is an ACTIVE splitter — kept by every split through the
+                                sibling rule (`upate_splitters_after_refinement`: an active `(D, c)`
+                                makes both halves active, otherwise one of the two halves becomes
+                                active; which half is irrelevant for correctness), and during a round
+                                by "…or exactly one successor lies in the splitter's block";
+  * `hopcroft_correct`          hence `P` is exactly the Moore / Nerode partition (`mooreAbs`, the
+                                specification of op `hopcroft`) up to the numbering of the blocks.
+  NOT proved: that `Hopcroft.run` never returns `none` on a closed DFA (absence of panics and
+  sufficiency of the fuel `(k+1)·n+1`, i.e. termination); the O(n log n) bound.  -/
+
+section Hopcroft
+open Hopcroft Partition BasePartition
+
+/-- T:fastset_spec — `FastSet` (two arrays `pos`/`elem`) implements a finite subset of
+    `{0, …, max-1}`: with `live s = elem[0..size)` as abstract value and `FastSet.Inv` the
+    representation invariant stated in the source, `new`/`reset` give the empty set, `iter` yields
+    the elements without repetition and `card` counts them, and for `x < max` no call panics,
+    `contains` decides membership, `insert` adds exactly `x`, `remove` deletes exactly `x` -/
+theorem fastset_spec :
+    (∀ max, FastSet.Inv (FastSet.new max) ∧ FastSet.live (FastSet.new max) = []) ∧
+    (∀ s, FastSet.Inv s → FastSet.Inv s.reset ∧ FastSet.live s.reset = [] ∧
+      s.card = (FastSet.live s).length ∧ s.iter = some (FastSet.live s) ∧ (FastSet.live s).Nodup ∧
+      ∀ x ∈ FastSet.live s, x < s.max) ∧
+    (∀ s x, FastSet.Inv s → x < s.max →
+      s.contains x = some (decide (x ∈ FastSet.live s)) ∧
+      (∃ s', s.insert x = some s' ∧ FastSet.Inv s' ∧ s'.max = s.max ∧
+        ∀ z, z ∈ FastSet.live s' ↔ z = x ∨ z ∈ FastSet.live s) ∧
+      (∃ s', s.remove x = some s' ∧ FastSet.Inv s' ∧ s'.max = s.max ∧
+        ∀ z, z ∈ FastSet.live s' ↔ z ∈ FastSet.live s ∧ z ≠ x)) := by
+  refine ⟨fun max => ⟨FastSet.new_inv max, FastSet.new_live max⟩, ?_, ?_⟩
+  · intro s h
+    exact ⟨FastSet.reset_inv h, FastSet.reset_live s, FastSet.card_spec h, (FastSet.iter_spec h).1,
+      (FastSet.iter_spec h).2, fun x hx => FastSet.live_lt h hx⟩
+  · intro s x h hx
+    refine ⟨FastSet.contains_spec h hx, ?_, ?_⟩
+    · obtain ⟨s', e, hi, hm, hl⟩ := FastSet.insert_spec h hx
+      refine ⟨s', e, hi, hm, ?_⟩
+      intro z
+      rw [hl]
+      split
+      · rename_i hin
+        constructor
+        · exact fun hz => .inr hz
+        · rintro (rfl | hz)
+          · exact hin
+          · exact hz
+      · simp only [List.mem_append, List.mem_singleton]
+        constructor
+        · rintro (hz | hz)
+          · exact .inr hz
+          · exact .inl hz
+        · rintro (hz | hz)
+          · exact .inr hz
+          · exact .inl hz
+    · obtain ⟨s', e, hi, hm, hl, _⟩ := FastSet.remove_spec h hx
+      exact ⟨s', e, hi, hm, hl⟩
+
+variable {δ : Nat → Nat → Option Nat} {isFinal : Nat → Option Bool} {n k : Nat}
+
+/-- T:hopcroft_invariants — the partition returned by `Minimizer::new(..).refine()` is a partition
+    of the `n` states (`PartWF`: headers inside `[0,n]` with disjoint windows, block 0 empty, every
+    state in exactly one block, blocks `≥ 1` non-empty, `block_id[x] = b ⇔ x` is stored in block `b`)
+    and every block is uniform in finality -/
+theorem hopcroft_invariants (hcl : Closed δ n k) {P : Partition}
+    (h : Hopcroft.run δ isFinal n k = some P) :
+    PartWF P n ∧
+    ∀ x y, x < n → y < n → blk P x = blk P y → ff isFinal x = ff isFinal y :=
+  let ⟨h1, h2, _, _⟩ := run_spec hcl h
+  ⟨h1, h2⟩
+
+/-- states that no word over the `k` letters distinguishes are never separated -/
+theorem hopcroft_never_separates_equivalent (hcl : Closed δ n k) {P : Partition}
+    (h : Hopcroft.run δ isFinal n k = some P) {x y : Nat} (hx : x < n) (hy : y < n)
+    (hxy : ∀ w : List Nat, (∀ c ∈ w, c < k) →
+      ff isFinal (w.foldl (dd δ) x) = ff isFinal (w.foldl (dd δ) y)) :
+    blk P x = blk P y :=
+  (run_spec hcl h).2.2.1 x y hx hy hxy
+
+/-- T:hopcroft_stable_on_exit — when `refine` returns, the partition is stable: two states of one
+    block are sent into one block by every letter -/
+theorem hopcroft_stable_on_exit (hcl : Closed δ n k) {P : Partition}
+    (h : Hopcroft.run δ isFinal n k = some P) {x y : Nat} (hx : x < n) (hy : y < n)
+    (hb : blk P x = blk P y) {c : Nat} (hc : c < k) :
+    blk P (dd δ x c) = blk P (dd δ y c) :=
+  (run_spec hcl h).2.2.2 x y hx hy hb c hc
+
+/-- block form: for blocks `B`, `C` and a letter `c`, either every state of `C` goes into `B` on
+    `c` or none does -/
+theorem hopcroft_stable_blocks (hcl : Closed δ n k) {P : Partition}
+    (h : Hopcroft.run δ isFinal n k = some P) (B C : Nat) {c : Nat} (hc : c < k) :
+    (∀ x, x < n → blk P x = C → blk P (dd δ x c) = B) ∨
+    (∀ x, x < n → blk P x = C → blk P (dd δ x c) ≠ B) := by
+  by_cases hex : ∃ x, x < n ∧ blk P x = C ∧ blk P (dd δ x c) = B
+  · obtain ⟨x, hx, hxC, hxB⟩ := hex
+    left
+    intro y hy hyC
+    rw [← hopcroft_stable_on_exit hcl h hx hy (hxC.trans hyC.symm) hc]
+    exact hxB
+  · right
+    intro x hx hxC hxB
+    exact hex ⟨x, hx, hxC, hxB⟩
+
+/-- T:hopcroft_correct — on exit the partition is the Moore / Nerode partition of the abstract DFA
+    (`mooreAbs`, proved to be the Nerode equivalence by `hopcroft_spec_sound/complete`) up to the
+    numbering of the blocks: same Hopcroft block ⇔ same Moore block -/
+theorem hopcroft_correct (hcl : Closed δ n k) {P : Partition}
+    (h : Hopcroft.run δ isFinal n k = some P) {x y : Nat} (hx : x < n) (hy : y < n) :
+    blk P x = blk P y ↔
+      (mooreAbs n (ff isFinal) (dd δ) (List.range k)).getD x 0 =
+      (mooreAbs n (ff isFinal) (dd δ) (List.range k)).getD y 0 := by
+  obtain ⟨_, hfin, hcoarse, hst⟩ := run_spec hcl h
+  have hc : ∀ s, s < n → ∀ c ∈ List.range k, dd δ s c < n :=
+    fun s hs c hc => (hcl.eq hs (List.mem_range.1 hc)).2
+  constructor
+  · intro hb
+    by_contra hne
+    obtain ⟨w, hw, hd⟩ := hopcroft_spec_complete hc hx hy hne
+    exact hd (indist_of_stable hcl hfin hst x y hx hy hb w (fun c hc' => List.mem_range.1 (hw c hc')))
+  · intro hm
+    apply hcoarse x y hx hy
+    intro w hw
+    exact hopcroft_spec_sound hc hx hy hm w (fun c hc' => List.mem_range.2 (hw c hc'))
+
+/-- hence: same Hopcroft block ⇔ no word distinguishes the two states -/
+theorem hopcroft_block_iff_indistinguishable (hcl : Closed δ n k) {P : Partition}
+    (h : Hopcroft.run δ isFinal n k = some P) {x y : Nat} (hx : x < n) (hy : y < n) :
+    blk P x = blk P y ↔
+      ∀ w : List Nat, (∀ c ∈ w, c < k) →
+        ff isFinal (w.foldl (dd δ) x) = ff isFinal (w.foldl (dd δ) y) := by
+  obtain ⟨_, hfin, hcoarse, hst⟩ := run_spec hcl h
+  exact ⟨fun hb => indist_of_stable hcl hfin hst x y hx hy hb, fun hi => hcoarse x y hx hy hi⟩
+
+/-! non-vacuity: a 6-state, 2-letter DFA (the corpus witness "the splitter's own block is split by
+    itself"): states 3 and 4 are equivalent, as are 1 and 2 -/
+
+def exRows : List (List Nat) := [[1, 2], [3, 4], [4, 3], [5, 5], [5, 5], [5, 5]]
+def exDelta (s c : Nat) : Option Nat := (exRows[s]?).bind (fun r => r[c]?)
+def exFinal (s : Nat) : Option Bool := [false, false, false, false, false, true][s]?
+
+example : Closed exDelta 6 2 := by
+  intro x c hx hc
+  have : x = 0 ∨ x = 1 ∨ x = 2 ∨ x = 3 ∨ x = 4 ∨ x = 5 := by omega
+  have : c = 0 ∨ c = 1 := by omega
+  rcases ‹x = 0 ∨ _› with rfl | rfl | rfl | rfl | rfl | rfl <;> rcases ‹c = 0 ∨ _› with rfl | rfl <;>
+    exact ⟨_, rfl, by decide⟩
+
+/-- the run of the model on it: blocks `{5} {3,4} {0} {2,1}` (ids 1, 2, 3, 4), exactly what the
+    real `Minimizer` returns (corpus line of op `hopcroft_blocks`) -/
+example : (Hopcroft.run exDelta exFinal 6 2).map (fun P => (P.blockId, P.base.segment)) =
+    some ([3, 4, 4, 2, 2, 1], [5, 3, 4, 0, 2, 1]) := by decide +kernel
+
+end Hopcroft
+
+/-! ### the model of `Automaton::minimize` passes the verified checker
+
+  `Automaton.minimize` (Model/Hopcroft.lean) = `compile_successors`, `Minimizer::new`, `refine`,
+  `StateMapping::from_partition` (`new_id[s] = block_id(s) - 1`, `old_id[b-1] = pick_element(b)`),
+  `remap_nodes` — or nothing at all when no two states are merged.  Hypotheses: `AutWF A` (the
+  invariant of every automaton the crate hands out, C13/C14; it gives the compiled table and a
+  consistent `num_final_states`, without which the unchanged automaton of the "already minimal"
+  branch would fail the checker's count clause) and the checker's own `wfAut A`. -/
+
+/-- T:minimize_model_passes_check — whenever the model's `minimize` returns an automaton, the
+    verified checker accepts it -/
+theorem minimize_model_passes_check {A A' : Automaton} (hw : AutWF A) (h : wfAut A = true)
+    (hm : A.minimize = some A') : checkMinimized A A' = true :=
+  Minimize.minimize_passes hw h hm
+
+/-- hence the model's `minimize` is correct in the full sense of the property (the four clauses of
+    `check_minimized_sound`) -/
+theorem minimize_model_correct {A A' : Automaton} (hw : AutWF A) (h : wfAut A = true)
+    (hm : A.minimize = some A') :
+    (∀ w, WFs w → A'.accepts w = A.accepts w) ∧
+    (∀ s t, s < A'.states.length → t < A'.states.length → s ≠ t → resid A' s ≠ resid A' t) ∧
+    (A'.numStates = A'.states.length ∧ A'.initialState < A'.numStates ∧
+      (∀ i (st : State), A'.states[i]? = some st → st.id = i) ∧
+      A'.numFinalStates = (A'.states.filter (·.isFinal)).length) ∧
+    (AllReachable A → A'.numStates = nerodeIndex A) :=
+  check_minimized_sound (minimize_model_passes_check hw h hm)
+
+/-- non-vacuity: the example automaton satisfies both hypotheses -/
+theorem exA_autWF : AutWF exA := by
+  refine ⟨by decide, by decide, by decide, ?_, by decide⟩
+  intro s hs
+  simp only [exA, List.mem_cons, List.not_mem_nil, or_false] at hs
+  rcases hs with rfl | rfl | rfl | rfl | rfl <;>
+    exact ⟨by decide +kernel, by decide, by decide, by decide, by decide⟩
+
+/-- non-vacuity: the model's `minimize` on the example returns a 4-state automaton with Hopcroft's
+    numbering (block of the final state first), different from the specification's quotient `exQ` -/
+example : (Automaton.minimize exA).map (fun Q => (Q.numStates, Q.initialState, Q.states.map (·.isFinal)))
+    = some (4, 2, [true, false, false, false]) := by decide +kernel
+
+example : ∃ Q, Automaton.minimize exA = some Q ∧ checkMinimized exA Q = true := by
+  cases hq : Automaton.minimize exA with
+  | none => exact absurd hq (by decide +kernel)
+  | some Q => exact ⟨Q, rfl, minimize_model_passes_check exA_autWF (by decide +kernel) hq⟩
 
 end Smt.C04
